@@ -2,6 +2,7 @@
 from __future__ import annotations
 
 import ast
+import copy
 import typing as T
 
 from ..core import Undecided, Module, norm, short, attr_chain, call_name, call_method, walk_no_nested, kwarg, decorator_names, names_in
@@ -833,6 +834,95 @@ def r3(ctx: RuleCtx) -> None:
     ctx.note(f'defined rule-name shapes: {sorted(L.show(s) for s in defined)}')
 
 
+def _yield_eff(st: ast.AST) -> T.Optional[str]:
+    return ('yield ' + norm(st.value.value)) if isinstance(st, ast.Expr) and isinstance(st.value, ast.Yield) and st.value.value is not None else None
+
+
+def _unrolled_comprehension(e: ast.AST) -> T.Optional[T.List[ast.stmt]]:
+    """`[elt for <targets> in (<display of displays>) if <cond>]` over a constant display the source spells out, as the statements
+    `if <cond_i>: yield <elt_i>` of its elements in order (the finite domain is declared by the source; nothing is evaluated: the target
+    names are replaced by the expressions of each element)."""
+    if not isinstance(e, (ast.ListComp, ast.GeneratorExp, ast.SetComp)) or len(e.generators) != 1 or e.generators[0].is_async:
+        return None
+    gen = e.generators[0]
+    if not isinstance(gen.iter, (ast.Tuple, ast.List)) or any(isinstance(x, ast.Starred) for x in gen.iter.elts):
+        return None
+    out: T.List[ast.stmt] = []
+    for item in gen.iter.elts:
+        if isinstance(gen.target, ast.Name):
+            env = {gen.target.id: item}
+        elif isinstance(gen.target, (ast.Tuple, ast.List)) and all(isinstance(t, ast.Name) for t in gen.target.elts) and isinstance(item, (ast.Tuple, ast.List)) \
+                and len(item.elts) == len(gen.target.elts) and not any(isinstance(x, ast.Starred) for x in item.elts):
+            env = {t.id: v for t, v in zip(gen.target.elts, item.elts)}  # type: ignore[attr-defined]
+        else:
+            return None
+
+        class Sub(ast.NodeTransformer):
+            def visit_Name(self, n: ast.Name, env: T.Dict[str, ast.AST] = env) -> ast.AST:
+                return copy.deepcopy(env[n.id]) if n.id in env and isinstance(n.ctx, ast.Load) else n
+        elt = Sub().visit(copy.deepcopy(e.elt))
+        conds = [Sub().visit(copy.deepcopy(c)) for c in gen.ifs]
+        y: ast.stmt = ast.Expr(value=ast.Yield(value=elt))
+        st = y if not conds else ast.If(test=conds[0] if len(conds) == 1 else ast.BoolOp(op=ast.And(), values=conds), body=[y], orelse=[])
+        out.append(ast.fix_missing_locations(ast.copy_location(st, e)))
+    return out
+
+
+def _variant_table(mod: Module, infos: L.Infos, info: L.FnInfo, src: ast.AST, at: T.Any, depth: int = 0) -> T.Tuple[tables.Table, ast.AST]:
+    """The decision table `conditions -> yield <suffix>` of the expression a loop over the rule variants iterates.  Read: a call of a nested
+    generator / generator method; a call of a helper that returns one of the other forms; a local list that starts empty and is filled by
+    append(<suffix>) under conditions; a comprehension over a display of (suffix, condition) records.  Anything else is Undecided."""
+    fnq = info.qn if hasattr(info, 'qn') else ''
+    while isinstance(src, ast.Call) and call_name(src) in ('list', 'tuple', 'iter') and len(src.args) == 1 and not src.keywords:
+        src = src.args[0]
+    if isinstance(src, ast.Call) and not src.args and not src.keywords and depth < 2:
+        gen_q = None
+        cn = call_name(src) or ''
+        if isinstance(src.func, ast.Name) and mod.has_func(f'{fnq}.{src.func.id}'):
+            gen_q = f'{fnq}.{src.func.id}'
+        elif cn.startswith('self.') and cn.count('.') == 1 and mod.has_func(f'NinjaRule.{cn[5:]}'):
+            gen_q = f'NinjaRule.{cn[5:]}'
+        if gen_q is None:
+            raise Undecided(f'NinjaRule.write: the rule variants come from `{short(src, 60)}`, a call the rule does not resolve')
+        g = mod.func(gen_q)
+        if any(isinstance(x, (ast.Yield, ast.YieldFrom)) for x in walk_no_nested(g, include_root=False)):
+            if any(isinstance(x, ast.YieldFrom) for x in walk_no_nested(g, include_root=False)):
+                raise Undecided(f'{gen_q}: `yield from` in the generator of the rule variants')
+            return _extract(g, effects=_yield_eff, name='rule variants'), g
+        gi = infos.get(gen_q)
+        rets = [x for x in walk_no_nested(g, include_root=False) if isinstance(x, ast.Return)]
+        if len(rets) != 1 or rets[0].value is None or rets[0] is not g.body[-1]:
+            raise Undecided(f'{gen_q}: the helper that names the rule variants is not a generator and does not end in its one `return <variants>`')
+        return _variant_table(mod, infos, gi, rets[0].value, gi.node_of(rets[0]), depth + 1)
+    if isinstance(src, ast.Name):
+        # the variants are collected in a local list: empty at first, then `append(<suffix>)` under conditions
+        lv = src.id
+        lds = info.reaching(lv, at)
+        if len(lds) == 1 and isinstance(lds[0], L.Def) and lds[0].kind == 'assign' and isinstance(lds[0].value, (ast.ListComp, ast.GeneratorExp)) \
+                and not info.mutations().get(lv, []):
+            return _variant_table(mod, infos, info, lds[0].value, lds[0].node, depth)
+        if len(lds) != 1 or not isinstance(lds[0], L.Def) or lds[0].kind != 'assign' or not (
+                (isinstance(lds[0].value, ast.List) and not lds[0].value.elts) or (isinstance(lds[0].value, ast.Call) and call_name(lds[0].value) == 'list' and not lds[0].value.args)):
+            raise Undecided(f'NinjaRule.write: the variant list `{lv}` does not start as one empty list')
+        muts = info.mutations().get(lv, [])
+        if not muts or any(c.func.attr != 'append' or len(c.args) != 1 for _, c in muts):  # type: ignore[union-attr]
+            raise Undecided(f'NinjaRule.write: the variant list `{lv}` is filled by something other than append(<suffix>)')
+        mut_ids = {id(c) for _, c in muts}
+        stmts = [st for st in info.fn.body if any(id(x) in mut_ids for x in ast.walk(st))]
+        if any(isinstance(st, (ast.For, ast.While, ast.Try, ast.With)) for st in stmts):
+            raise Undecided(f'NinjaRule.write: the variant list `{lv}` is filled inside a loop/try')
+
+        def leff(st: ast.AST, lv: str = lv) -> T.Optional[str]:
+            if isinstance(st, ast.Expr) and isinstance(st.value, ast.Call) and call_name(st.value) == f'{lv}.append':
+                return 'yield ' + norm(st.value.args[0])
+            return None
+        return _extract(info.fn, body=stmts, effects=leff, inline=False, name='rule variants'), info.fn
+    un = _unrolled_comprehension(src)
+    if un is not None:
+        return _extract(info.fn, body=un, effects=_yield_eff, inline=False, name='rule variants'), info.fn
+    raise Undecided(f'NinjaRule.write: the rule variants come from `{short(src, 60)}`, a form the rule does not read')
+
+
 def r3b(ctx: RuleCtx) -> None:
     """The `_RSP` twin of a rule: referenced, counted and written under the same condition."""
     mod = ctx.repo.module(NB)
@@ -946,40 +1036,7 @@ def r3b(ctx: RuleCtx) -> None:
     rsv = rw.reaching(exprs[1].id, hn)
     if len(rsv) != 1 or not isinstance(rsv[0], L.Def) or rsv[0].kind != 'iter' or rsv[0].value is None:
         raise Undecided('NinjaRule.write: the header suffix is not the variable of a loop over the variants')
-    src = rsv[0].value
-    gen_q = None
-    if isinstance(src, ast.Call) and not src.args and not src.keywords:
-        if isinstance(src.func, ast.Name) and mod.has_func(f'NinjaRule.write.{src.func.id}'):
-            gen_q = f'NinjaRule.write.{src.func.id}'
-        elif (call_name(src) or '').startswith('self.') and (call_name(src) or '').count('.') == 1 and mod.has_func(f'NinjaRule.{call_name(src)[5:]}'):  # type: ignore[index]
-            gen_q = f'NinjaRule.{call_name(src)[5:]}'  # type: ignore[index]
-    if gen_q is not None:
-        # the variants come from a nested generator or a generator method
-        g = mod.func(gen_q)
-        gt = _extract(g, effects=lambda st: ('yield ' + norm(st.value.value)) if isinstance(st, ast.Expr) and isinstance(st.value, ast.Yield) else None, name='rule variants')
-    elif isinstance(src, ast.Name):
-        # the variants are collected in a local list: empty at first, then `append(<suffix>)` under conditions
-        lv = src.id
-        lds = rw.reaching(lv, rsv[0].node)
-        if len(lds) != 1 or not isinstance(lds[0], L.Def) or lds[0].kind != 'assign' or not (
-                (isinstance(lds[0].value, ast.List) and not lds[0].value.elts) or (isinstance(lds[0].value, ast.Call) and call_name(lds[0].value) == 'list' and not lds[0].value.args)):
-            raise Undecided(f'NinjaRule.write: the variant list `{lv}` does not start as one empty list')
-        muts = rw.mutations().get(lv, [])
-        if not muts or any(c.func.attr != 'append' or len(c.args) != 1 for _, c in muts):  # type: ignore[union-attr]
-            raise Undecided(f'NinjaRule.write: the variant list `{lv}` is filled by something other than append(<suffix>)')
-        mut_ids = {id(c) for _, c in muts}
-        stmts = [st for st in rw.fn.body if any(id(x) in mut_ids for x in ast.walk(st))]
-        if any(isinstance(st, (ast.For, ast.While, ast.Try, ast.With)) for st in stmts):
-            raise Undecided(f'NinjaRule.write: the variant list `{lv}` is filled inside a loop/try')
-        g = rw.fn
-
-        def leff(st: ast.AST, lv: str = lv) -> T.Optional[str]:
-            if isinstance(st, ast.Expr) and isinstance(st.value, ast.Call) and call_name(st.value) == f'{lv}.append':
-                return 'yield ' + norm(st.value.args[0])
-            return None
-        gt = _extract(rw.fn, body=stmts, effects=leff, inline=False, name='rule variants')
-    else:
-        raise Undecided(f'NinjaRule.write: the rule variants come from `{short(src, 60)}`, a form the rule does not read')
+    gt, g = _variant_table(mod, infos, rw, rsv[0].value, rsv[0].node)
     def counter(a: tables.Atom) -> T.Optional[T.Tuple[str, bool]]:
         """atom about a reference counter -> (field, truth of the atom when the counter is non-zero): `x`, `x > 0`, `x != 0`, `x >= 1`, `x == 0` ..."""
         if a.kind == 'truth' and a.args[0] in ('self.refcount', 'self.rsprefcount'):
